@@ -89,11 +89,23 @@ func genCases(seed int64, n, length int, scale string, multi bool, features stri
 			cases[i] = c
 			continue
 		}
+		if features == "strings" {
+			// ordinary histories whose metadata values need JSON escaping or are not ASCII (C09: the stored hash is
+			// computed by the SQL trigger from the memento column, the expected one by Log.ComputeHash)
+			g.Vals = drive.AdversarialVals
+			c.Ops = g.History(length)
+			c.Ledgers = []drive.CaseLedger{{Name: "l1", Bucket: "b1"}}
+			cases[i] = c
+			continue
+		}
 		if features == "blocks" {
 			// C34: two ledgers with HASH_LOGS=ASYNC in one bucket (and a third without, which must get no
 			// block); the block builder runs at random points with random maximal block sizes, and at the end
 			async := map[string]string{"HASH_LOGS": "ASYNC"}
 			gens := map[string]*drive.Gen{"l1": g, "l2": drive.NewGen(cs+7, "l2"), "l3": drive.NewGen(cs+13, "l3")}
+			for _, x := range gens {
+				x.Vals = drive.AdversarialVals // mementos with escapes and non-ASCII bytes go through the digest
+			}
 			steps := map[string]int{}
 			pick := drive.NewGen(cs+29, "pick")
 			names := []string{"l1", "l2", "l3"}
